@@ -567,3 +567,37 @@ pub fn par_range(ctx: &Ctx, total: u64, f: impl Fn(u64, &mut Stats) + Sync + Sen
 pub fn par_slice<T: Sync>(ctx: &Ctx, items: &[T], f: impl Fn(&T, &mut Stats) + Sync + Send) -> Stats {
     par_range(ctx, items.len() as u64, |i, st| f(&items[i as usize], st))
 }
+
+// ---------------------------------------------------------------------------------
+// environment for the Write-based entry points: a sink whose answers the harness decides
+
+/// A sink that accepts at most `chunk` bytes per `write` call and answers the `fail_at`-th call
+/// (0-based) with an error. `calls` counts the calls made, `data` is what was accepted.
+pub struct ScriptedWriter {
+    pub chunk: usize,
+    pub fail_at: Option<usize>,
+    pub calls: usize,
+    pub data: Vec<u8>,
+}
+
+impl ScriptedWriter {
+    pub fn new(chunk: usize, fail_at: Option<usize>) -> Self {
+        ScriptedWriter { chunk, fail_at, calls: 0, data: vec![] }
+    }
+}
+
+impl std::io::Write for ScriptedWriter {
+    fn write(&mut self, buf: &[u8]) -> std::io::Result<usize> {
+        let n = self.calls;
+        self.calls += 1;
+        if self.fail_at == Some(n) {
+            return Err(std::io::Error::new(std::io::ErrorKind::Other, "scripted failure"));
+        }
+        let k = buf.len().min(self.chunk);
+        self.data.extend_from_slice(&buf[..k]);
+        Ok(k)
+    }
+    fn flush(&mut self) -> std::io::Result<()> {
+        Ok(())
+    }
+}
